@@ -14,6 +14,7 @@
   and every result is `fil pred scope` — the scope filtered by the documented predicate, order kept.
 -/
 import AHP.Lemmas.Search
+import AHP.Lemmas.ClassWords
 namespace AHP.C06
 open AHP
 
@@ -195,6 +196,52 @@ theorem byClassName_coll (q : Str) (ws : List Str) (hw : classWords q = ws) (h1 
   · rename_i hl
     rw [h1 hl]; simp [pAllClasses, pClass]
   · rfl
+
+/-- C06e on query strings: class names (non-empty, free of white space) joined by single spaces. The parser
+    form returns exactly the elements of the scope that carry all of them. -/
+theorem byClassName_query_parser (names : List Str) (hne : names ≠ []) (hw : ∀ n ∈ names, Word n)
+    (root : Node) (arg : Option Node) (h : (scanRoot root arg).Distinct) :
+    ∃ r, byClassName (joinWith [' '] names) (.parser root arg) = some r ∧
+      r.items = fil (pAllClasses names) (parserScope root arg) := by
+  cases names with
+  | nil => exact absurd rfl hne
+  | cons c rest => exact byClassName_parser _ c rest (classWords_join _ hne hw) root arg h
+
+theorem byClassName_query_element (names : List Str) (hne : names ≠ []) (hw : ∀ n ∈ names, Word n)
+    {n : Node} (h : n.Distinct) :
+    ∃ r, byClassName (joinWith [' '] names) (.element n) = some r ∧ r.items = fil (pAllClasses names) n.desc := by
+  cases names with
+  | nil => exact absurd rfl hne
+  | cons c rest => exact byClassName_element _ c rest (classWords_join _ hne hw) h
+
+theorem byClassName_query_coll (names : List Str) (hne : names ≠ []) (hw : ∀ n ∈ names, Word n) (ms : List Node) :
+    ∃ r, byClassName (joinWith [' '] names) (.coll ms) = some r ∧
+      r.items = dedupN [] (fil (pAllClasses names) (ms.flatMap Node.preorder)) := by
+  apply byClassName_coll _ names (classWords_join _ hne hw)
+  intro hl
+  cases names with
+  | nil => exact absurd rfl hne
+  | cons c rest =>
+    have : rest = [] := by
+      cases rest with
+      | nil => rfl
+      | cons _ _ => simp at hl
+    subst this
+    have hj : joinWith [' '] [c] = c := by unfold joinWith; rfl
+    rw [hj, strip_word (hw c (by simp))]
+
+/-- "whatever the order or number of names": two queries naming the same set of classes — permuted, with
+    repetitions — have the same answer, on every document and from every `root=`. -/
+theorem class_query_order_multiplicity_irrelevant (ns ms : List Str) (hn : ns ≠ []) (hm : ms ≠ [])
+    (hwn : ∀ n ∈ ns, Word n) (hwm : ∀ n ∈ ms, Word n) (hset : ∀ x, x ∈ ns ↔ x ∈ ms)
+    (root : Node) (arg : Option Node) (h : (scanRoot root arg).Distinct) :
+    (byClassName (joinWith [' '] ns) (.parser root arg)).map TC.items
+      = (byClassName (joinWith [' '] ms) (.parser root arg)).map TC.items := by
+  obtain ⟨r1, h1, e1⟩ := byClassName_query_parser ns hn hwn root arg h
+  obtain ⟨r2, h2, e2⟩ := byClassName_query_parser ms hm hwm root arg h
+  rw [h1, h2, Option.map_some, Option.map_some, e1, e2]
+  congr 1
+  exact fil_congr (fun n _ => allClasses_set ns ms hset n.elem)
 
 /-! #### C06b — collection forms: members and descendants, discovery order, de-duplicated -/
 
